@@ -130,7 +130,11 @@ func Run(j *job.Job, s *job.Sink) {
 		// across processing runs.
 		if r.Intn(3) == 0 {
 			n := 2 + r.Intn(3)
+			withSub := r.Intn(2) == 0
 			var idops []op
+			if withSub {
+				idops = append(idops, op{"load", "zzid0s.yang", "submodule zzid0s {\n  belongs-to zzid0 { prefix i0; }\n  identity SUBMID { base MID; }\n  identity SUBLOW { base SUBMID; }\n  identity SUBTOP { base i0:TOP; }\n  leaf subref { type identityref { base MID; } }\n}\n"})
+			}
 			for k := 0; k < n; k++ {
 				var b strings.Builder
 				fmt.Fprintf(&b, "module zzid%d {\n  namespace \"urn:zzid%d\";\n  prefix i%d;\n", k, k, k)
@@ -138,6 +142,11 @@ func Run(j *job.Job, s *job.Sink) {
 					fmt.Fprintf(&b, "  import zzid%d { prefix x%d; }\n", q, q)
 				}
 				if k == 0 {
+					// half of the time part of the hierarchy lives in a submodule, which is a
+					// file of its own and may arrive after its module has been processed
+					if withSub {
+						b.WriteString("  include zzid0s;\n")
+					}
 					b.WriteString("  identity TOP;\n  identity MID { base TOP; }\n  identity LOW { base MID; }\n  leaf idref { type identityref { base TOP; } }\n")
 				} else {
 					for q := 1 + r.Intn(2); q > 0; q-- {
